@@ -2,7 +2,7 @@
    json.loads and the decoding hook.  The text layer (IO/JsonText_proofs.v) and the tree layer
    (IO/EJson_proofs.v) compose: the line decodes to the value it was written from. *)
 From Coq Require Import List ZArith Bool.
-From DF Require Import Base.Str Base.Value IO.EJson IO.EJson_proofs IO.JsonText IO.JsonText_proofs.
+From DF Require Import Base.Str Base.Value Base.Value_proofs IO.EJson IO.EJson_proofs IO.JsonText IO.JsonText_proofs.
 Import ListNotations.
 Open Scope Z_scope.
 
@@ -39,4 +39,43 @@ Section LINE.
     apply (ejson_roundtrip K dec_str dec_parse time_str time_parse dt_str dt_parse date_str date_parse dur_str dur_parse
              dec_rt time_rt dt_rt date_rt dur_rt K_distinct v OK).
   Qed.
+  (* the premise jok, discharged from the value: no binary float inside, every string and key a sequence of valid
+     code points, and the scalar codecs and reserved key names printable *)
+  Fixpoint text_ok (v : value) : Prop :=
+    match v with
+    | VFlt _ _ => False
+    | VStr x => Forall char_ok x
+    | VDT _ _ _ _ _ _ _ (Some (_, Some n)) => Forall char_ok n
+    | VList l => (fix all (l : list value) : Prop := match l with [] => True | x :: r => text_ok x /\ all r end) l
+    | VObj l => (fix all (l : list (str * value)) : Prop :=
+                   match l with [] => True | kv :: r => Forall char_ok (fst kv) /\ text_ok (snd kv) /\ all r end) l
+    | _ => True
+    end.
+
+  Hypothesis K_ok : Forall char_ok (k_dec K) /\ Forall char_ok (k_time K) /\ Forall char_ok (k_dt K) /\
+                    Forall char_ok (k_date K) /\ Forall char_ok (k_dur K).
+  Hypothesis dec_ok : forall m e, Forall char_ok (dec_str m e).
+  Hypothesis time_ok : forall h mi sc, Forall char_ok (time_str h mi sc).
+  Hypothesis dt_ok : forall y mo d h mi sc, Forall char_ok (dt_str y mo d h mi sc).
+  Hypothesis date_ok : forall y mo d, Forall char_ok (date_str y mo d).
+  Hypothesis dur_ok : forall d sc us, Forall char_ok (dur_str d sc us).
+
+  Lemma encode_jok : forall v, text_ok v -> jok (encode K dec_str time_str dt_str date_str dur_str v).
+  Proof.
+    destruct K_ok as (K1 & K2 & K3 & K4 & K5).
+    induction v as [|b|z|m e|m e|x|y m d|h mi sc us|y mo d h mi sc us tz|d sc us|l IH|l IH] using value_ind2;
+      intros T; cbn [encode text_ok] in *; try exact I; try exact T.
+    - cbn [jok]. repeat split; auto.
+    - cbn [jok]. repeat split; auto.
+    - cbn [jok]. repeat split; auto.
+    - cbn [jok]. destruct tz as [[ofs [n|]]|]; cbn [jok]; repeat split; auto.
+    - cbn [jok]. repeat split; auto.
+    - apply jok_arr. induction l as [|x r IHr]; [exact I|]. inversion IH as [|? ? Hx Hr]; subst.
+      destruct T as [Tx Tr]. cbn [map iok]. split; [apply Hx; exact Tx|apply IHr; assumption].
+    - apply jok_obj. induction l as [|[k x] r IHr]; [exact I|]. inversion IH as [|? ? Hx Hr]; subst.
+      destruct T as (Tk & Tx & Tr). cbn [map mok fst snd] in *. split; [exact Tk|]. split; [apply Hx; exact Tx|apply IHr; assumption].
+  Qed.
+
+  Theorem line_roundtrip_values v : ejson_ok K v = true -> text_ok v -> read_line (write_line v) = Some v.
+  Proof. intros OK T. apply line_roundtrip; [exact OK|apply encode_jok; exact T]. Qed.
 End LINE.
